@@ -286,7 +286,7 @@ def main(tier: str, seed: int):
     sess = Session(PID, tier, seed, level="fault_enumeration", rule=RULE)
     sess.assume("tokens are whitespace tokens; the ops cap is scheduler.budgets.ops_reflection (0 when unset, as the writer reads it)")
     sess.assume("the dry-run leg uses the documented ctx._dry_run_until_t4 contract of the batch driver's compute phase")
-    total = 1000 if tier == "quick" else 20000
+    total = 1000 if tier == "quick" else 60000
     nchunks = par.NWORK
     per = max(1, total // nchunks)
     for ex in par.pmap(_chunk, [(tier, seed, i, per) for i in range(nchunks)]):
